@@ -49,6 +49,12 @@ var ignoreHeaders = []string{
 
 var ErrBodyIsNil = errors.New("body is nil")
 
+// ErrContentTypeFilterTooLong the content type filter of cache data is too long
+var ErrContentTypeFilterTooLong = errors.New("content type filter is too long")
+
+// maxCompressContentTypeFilterSize the max size of content type filter (the same as config's validation)
+const maxCompressContentTypeFilterSize = 1000
+
 var defaultCompressContentTypeFilter = regexp.MustCompile(`text|javascript|json|wasm|xml|font`)
 
 type (
@@ -180,6 +186,11 @@ func (resp *HTTPResponse) FromBytes(data []byte) (err error) {
 
 	size, err = readUint32ToInt(buffer)
 	if err != nil {
+		return
+	}
+	// 配置校验中已限制filter的长度，超长的只可能是异常数据（正则编译占用的内存远大于其长度）
+	if size > maxCompressContentTypeFilterSize {
+		err = ErrContentTypeFilterTooLong
 		return
 	}
 	contentTypeFilter := string(buffer.Next(size))
